@@ -316,9 +316,13 @@ def main(argv=None):
     for (un, obn, why) in undecided:
       print("UNDECIDED property=%s obligation=%s/%s reason=%s" % (prop, un, obn, why))
 
-  write_evidence(prop, tier, seed, wall, total_obl, discharged, functions, axioms, solver_time, solver_queries,
-                 solver_max, backends, per_unit, samples_out, sample_stats, violations, undecided, errors,
-                 known_hits, units, standin_out, bounded_sym)
+  if a.unit:
+    # a partial run (development aid: --unit NAME) must not replace the property's evidence file with a partial record
+    print("(partial run: evidence/%s.json not rewritten)" % prop)
+  else:
+    write_evidence(prop, tier, seed, wall, total_obl, discharged, functions, axioms, solver_time, solver_queries,
+                   solver_max, backends, per_unit, samples_out, sample_stats, violations, undecided, errors,
+                   known_hits, units, standin_out, bounded_sym)
   print("property=%s tier=%s units=%d obligations=%d discharged=%d bounded_shape_obligations=%d standin_cases=%d "
         "violations=%d undecided=%d errors=%d known=%d wall=%.1fs"
         % (prop, tier, len(units), total_obl, discharged, int((bounded_sym or {}).get("obligations", 0)),
